@@ -78,6 +78,11 @@ func (w *WalletManager) constructTxIn(inputs []*TxIn, lockTime uint64) (*wire.Ms
 			return nil, nil, massutil.ZeroAmount(), ErrInvalidParameter
 		}
 
+		if int(txIn.PreviousOutPoint.Index) >= len(prevTx.TxOut) {
+			logging.CPrint(logging.ERROR, "prev tx has no such output", logging.LogFormat{
+				"tx": input.TxId, "vout": input.Vout, "outputs": len(prevTx.TxOut)})
+			return nil, nil, massutil.ZeroAmount(), ErrInvalidParameter
+		}
 		prevTxOut := prevTx.TxOut[txIn.PreviousOutPoint.Index]
 		pks, err := utils.ParsePkScript(prevTxOut.PkScript, w.chainParams)
 		if err != nil {
@@ -91,8 +96,22 @@ func (w *WalletManager) constructTxIn(inputs []*TxIn, lockTime uint64) (*wire.Ms
 		switch {
 		case pks.IsStaking():
 			txIn.Sequence = pks.Maturity()
-		case pks.IsBinding() && forks.EnforceMASSIP0002WarmUp(block.Height):
-			txIn.Sequence = consensus.MASSIP0002BindingLockedPeriod
+		case pks.IsBinding():
+			// a pending (unconfirmed) parent has no block yet; it can only
+			// confirm above the current tip
+			var prevHeight uint64
+			if block != nil {
+				prevHeight = block.Height
+			} else {
+				syncedHeight, err := w.SyncedTo()
+				if err != nil {
+					return nil, nil, massutil.ZeroAmount(), err
+				}
+				prevHeight = syncedHeight + 1
+			}
+			if forks.EnforceMASSIP0002WarmUp(prevHeight) {
+				txIn.Sequence = consensus.MASSIP0002BindingLockedPeriod
+			}
 		default:
 		}
 
